@@ -66,3 +66,25 @@ def fitsList : Schema → List Value → Bool
 end
 
 end Ndn.Codec
+
+namespace Ndn.Codec
+
+/- schemas the decoder theorems of C07 quantify over: markers allowed, no MapField, repeated fields hold
+   element kinds -/
+mutual
+def pS : Schema → Bool
+  | .model _ fs _ => pFs fs
+  | .repeated e => isElemKind e && pS e
+  | .map _ _ => false
+  | _ => true
+def pFs : List Schema → Bool
+  | [] => true
+  | s :: r => pS s && pFs r
+end
+
+/-- the documented decoding errors -/
+def docErr : PyErr → Bool
+  | .indexError | .structError | .valueError | .decodeError | .typeError => true
+  | _ => false
+
+end Ndn.Codec
